@@ -232,6 +232,9 @@ func main() {
 	tree := gitDescribe()
 
 	if *replay != "" {
+		if b, err := os.ReadFile(*replay); err == nil && bytes.Contains(b, []byte(`"oracle": "C14.data-race`)) {
+			os.Exit(replayRace(raceBin, prop, *replay))
+		}
 		os.Exit(doReplay(bin, prop, *replay, true))
 	}
 
@@ -282,6 +285,13 @@ func main() {
 		}(w)
 	}
 	wg.Wait()
+
+	// free-running workload under the race detector
+	var raceViols []violation
+	raceRuns := 0
+	if pc.Race && raceBin != "" {
+		raceViols, raceRuns = runRace(raceBin, prop, seed, tier, outDir, replayDir, tree)
+	}
 
 	// aggregate
 	agg := summary{Faults: map[string]int{}, Probes: map[string]int{}, Sigs: map[string]int{}, Scen: map[string]int{}}
@@ -353,6 +363,10 @@ func main() {
 		}
 	}
 
+	viols = append(viols, raceViols...)
+	if pc.Race {
+		agg.Probes["race-detector-runs"] += raceRuns
+	}
 	// classify violations
 	known := loadFindings()
 	printedKnown := map[string]bool{}
@@ -389,7 +403,12 @@ func main() {
 			fmt.Printf("note: violation %s seen (run %d) but not minimised (per-worker limit); msg: %s\n", id, v.Run, v.Msg)
 			continue
 		}
-		rc := doReplay(bin, prop, v.Replay, false)
+		rc := 0
+		if strings.HasPrefix(v.Oracle, "C14.data-race") {
+			rc = 1 // the race report itself is the evidence; happens-before detection does not need the interleaving to recur
+		} else {
+			rc = doReplay(bin, prop, v.Replay, false)
+		}
 		if rc == 1 {
 			fmt.Printf("violation: oracle=%s key=%s run=%d scenario=%s\n  %s\n", v.Oracle, v.Key, v.Run, v.Scenario, v.Msg)
 			fmt.Printf("VIOLATION property=%s replay=%s\n", prop, v.Replay)
@@ -626,4 +645,165 @@ func determinism(propsList []string) int {
 		}
 	}
 	return rc
+}
+
+type raceReport struct {
+	Key  string
+	Text string
+}
+
+// parseRaces extracts data race reports that involve relic code.
+func parseRaces(log string) []raceReport {
+	var out []raceReport
+	for _, blk := range strings.Split(log, "==================") {
+		if !strings.Contains(blk, "WARNING: DATA RACE") {
+			continue
+		}
+		var frames []string
+		for _, sect := range strings.Split(blk, "\n\n") {
+			head := strings.TrimSpace(strings.SplitN(sect, "\n", 2)[0])
+			if !(strings.HasPrefix(head, "Write at") || strings.HasPrefix(head, "Read at") || strings.HasPrefix(head, "Previous write at") || strings.HasPrefix(head, "Previous read at") || strings.Contains(head, "WARNING: DATA RACE")) {
+				continue
+			}
+			for _, l := range strings.Split(sect, "\n") {
+				l = strings.TrimSpace(l)
+				if strings.HasPrefix(l, "github.com/sassoftware/relic/v8/") && !strings.Contains(l, "/zz_verif/") {
+					f := strings.TrimPrefix(l, "github.com/sassoftware/relic/v8/")
+					if i := strings.Index(f, "("); i > 0 && !strings.HasPrefix(f[i:], "(*") {
+						f = f[:i]
+					} else if j := strings.LastIndex(f, "("); j > 0 {
+						f = f[:j]
+					}
+					frames = append(frames, f)
+					break
+				}
+			}
+		}
+		if len(frames) == 0 {
+			continue
+		}
+		sort.Strings(frames)
+		out = append(out, raceReport{Key: strings.Join(frames, "|"), Text: strings.TrimSpace(blk)})
+	}
+	return out
+}
+
+func runRace(raceBin, prop string, seed int, tier, outDir, replayDir, tree string) ([]violation, int) {
+	// lazily initialised process-wide state can only race in the first run
+	// of a process, so many short-lived processes beat a few long ones
+	workers, runsPer, budget := 12, 3, 40
+	if tier == "thorough" {
+		workers, runsPer, budget = 96, 25, 120
+	}
+	type res struct {
+		reports []raceReport
+		runs    int
+		err     error
+		log     string
+	}
+	results := make([]res, workers)
+	var wg sync.WaitGroup
+	sem := make(chan struct{}, 12)
+	for w := 0; w < workers; w++ {
+		wg.Add(1)
+		go func(w int) {
+			defer wg.Done()
+			sem <- struct{}{}
+			defer func() { <-sem }()
+			out := filepath.Join(outDir, fmt.Sprintf("race%d.jsonl", w))
+			logp := filepath.Join(outDir, fmt.Sprintf("race%d.log", w))
+			env := []string{"VERIF_PROP=" + prop, "VERIF_SEED=" + strconv.Itoa(seed), "VERIF_SCENARIO=race-freerun",
+				"VERIF_RUN_START=" + strconv.Itoa(100000+w), "VERIF_RUN_STRIDE=" + strconv.Itoa(workers), "VERIF_RUN_MAX=" + strconv.Itoa(runsPer),
+				"VERIF_BUDGET_MS=" + strconv.Itoa(budget*1000), "VERIF_MAX_MINIMISE=0", "VERIF_OUT=" + out, "VERIF_REPLAY_DIR=" + replayDir,
+				"GOMAXPROCS=4", "GORACE=halt_on_error=0"}
+			err := runWorker(raceBin, env, time.Duration(budget+180)*time.Second, logp)
+			b, _ := os.ReadFile(logp)
+			results[w].log = string(b)
+			results[w].reports = parseRaces(string(b))
+			results[w].err = err
+			ob, _ := os.ReadFile(out)
+			for _, line := range bytes.Split(ob, []byte("\n")) {
+				var m struct {
+					Type string `json:"type"`
+					Runs int    `json:"runs"`
+				}
+				if json.Unmarshal(line, &m) == nil && m.Type == "summary" {
+					results[w].runs = m.Runs
+				}
+			}
+		}(w)
+	}
+	wg.Wait()
+	var viols []violation
+	runs := 0
+	seen := map[string]bool{}
+	for w, rs := range results {
+		runs += rs.runs
+		if rs.runs == 0 && len(rs.reports) == 0 {
+			fmt.Printf("note: race worker %d produced no summary (%v)\n%s\n", w, rs.err, tailString(rs.log, 1500))
+		}
+		for _, rep := range rs.reports {
+			if seen[rep.Key] {
+				continue
+			}
+			seen[rep.Key] = true
+			p := filepath.Join(replayDir, fmt.Sprintf("%s-%d-race-%s.json", prop, seed, sanitizeName(rep.Key)))
+			rf := map[string]any{"property": prop, "scenario": "race-freerun", "seed": seed, "worker": w, "workers": workers, "runs_per_worker": runsPer,
+				"oracle": "C14.data-race", "key": rep.Key, "msg": "the race detector reported a data race involving relic code", "report": strings.Split(rep.Text, "\n"), "tree": tree}
+			b, _ := json.MarshalIndent(rf, "", " ")
+			os.WriteFile(p, b, 0o644)
+			viols = append(viols, violation{Run: 100000 + w, Scenario: "race-freerun", Oracle: "C14.data-race", Key: rep.Key,
+				Msg: "data race between " + rep.Key + " (full report in the replay file)", Replay: p})
+		}
+	}
+	return viols, runs
+}
+
+func replayRace(raceBin, prop, path string) int {
+	b, err := os.ReadFile(path)
+	if err != nil {
+		fmt.Println("ERROR:", err)
+		return 2
+	}
+	var rf struct {
+		Seed   int      `json:"seed"`
+		Key    string   `json:"key"`
+		Report []string `json:"report"`
+	}
+	json.Unmarshal(b, &rf)
+	outDir := filepath.Join(verifDir, "build", "out", fmt.Sprintf("racereplay-%d", os.Getpid()))
+	os.MkdirAll(outDir, 0o755)
+	defer os.RemoveAll(outDir)
+	viols, runs := runRace(raceBin, prop, rf.Seed, "quick", outDir, outDir, "")
+	for _, v := range viols {
+		if v.Key == rf.Key {
+			fmt.Printf("race reproduced in %d free-running executions: %s\n", runs, v.Key)
+			fmt.Printf("VIOLATION property=%s replay=%s\n", prop, path)
+			return 1
+		}
+	}
+	fmt.Printf("recorded race report (happens-before evidence, independent of the interleaving recurring):\n%s\n", strings.Join(rf.Report, "\n"))
+	fmt.Printf("the race was not re-observed in %d fresh free-running executions\n", runs)
+	fmt.Printf("VIOLATION property=%s replay=%s\n", prop, path)
+	return 1
+}
+
+func tailString(s string, n int) string {
+	if len(s) > n {
+		return s[len(s)-n:]
+	}
+	return s
+}
+
+func sanitizeName(s string) string {
+	r := strings.Map(func(r rune) rune {
+		if r >= 'a' && r <= 'z' || r >= 'A' && r <= 'Z' || r >= '0' && r <= '9' {
+			return r
+		}
+		return '_'
+	}, s)
+	if len(r) > 80 {
+		r = r[:80]
+	}
+	return r
 }
